@@ -16,7 +16,7 @@ LEVEL_TEXT = ("Generated HITL programs (1-4 concurrent waits, waiting step with 
 LEVEL_NOTE = "Trusted: virtual clock, recorder inside the generated step bodies (the public ctx.wait_for_event boundary), reducer probe for tick order."
 DESIGN_REF = "§5 C10"
 RULE = "case = wait-family program + responder script (+ resume point); distinct = tick-order signature hash; non-trivial = >=1 wait returned or timed out"
-REQUIRED_REACH = ["waiter_eval", "wait_result_eval", "wait_timeout_seen", "waiter_event_eval", "resumed_case", "resumed_with_open_waiter"]
+REQUIRED_REACH = ["waiter_eval", "wait_result_eval", "wait_timeout_seen", "waiter_event_eval", "resumed_case", "resumed_with_open_waiter", "double_cycle"]
 ASSUMPTIONS = ["programs never fail after a successful wait, so every wait_for_event return is a completion"]
 FAMILIES = [("wait", 1)]
 
@@ -50,6 +50,16 @@ def _resume(case, tr0, acc):
         return
     ent = rnd.choice(cands)
     k, snap = ent["k"], ent["snap"]
+    # optionally a second serialize/resume cycle: resume, snapshot again within the first few yields (before the waiting
+    # step had a chance to re-register), and resume from THAT snapshot
+    if rnd.random() < 0.4:
+        spec_mid = {**json.loads(json.dumps(case["spec"])), "uid_base": 500, "externals": [], "responders": []}
+        snap1 = snap
+        _tr, snaps2 = engine_run.run_with_snapshots(spec_mid, ctx_factory=lambda w: Context.from_dict(w, json.loads(json.dumps(snap1))), start=False)
+        early = [e for e in snaps2[:4] if e["snap"] is not None]
+        if early:
+            snap = rnd.choice(early)["snap"]
+            acc.hit("double_cycle")
     waiters = []
     for sname, w in snap["workers"].items():
         for cw in w["collected_waiters"]:
